@@ -598,6 +598,9 @@ class Body:
             self.edits.append((len(self.text), 0, '\n' + text + '\n'))
             return
         a, b, terminated = stmts[-1]
+        first_tok = [t for t in lex(self.text[a:b]) if t[0] not in ('ws', 'lcomment', 'bcomment')][0]
+        if first_tok[1] in ('for', 'while'):
+            terminated = True      # loops are unit-valued statements even in tail position
         if terminated:
             self.edits.append((len(self.text), 0, '\n' + text + '\n'))
         else:
